@@ -12,6 +12,8 @@ Definition in01 (x : R) : Prop := 0 <= x <= 1.
 Definition rgb01 (c : R * R * R) : Prop :=
   let '(r, g, b) := c in in01 r /\ in01 g /\ in01 b.
 
+Ltac tup := repeat match goal with |- (_, _) = (_, _) => apply f_equal2 end; try reflexivity.
+
 Ltac rb :=
   repeat match goal with
   | |- context [Rltb ?a ?b] =>
@@ -30,15 +32,18 @@ Lemma hsl_to_hsv_fst h s l : fst (fst (hsl_to_hsv ROps h s l)) = h.
 Proof. reflexivity. Qed.
 
 (* closed form on the upper lightness branch (the only one the TSL key uses) *)
-Lemma hsl_to_hsv_upper h s l : 1 / 2 < l -> 0 <= s -> l + s * (1 - l) <> 0 ->
-  hsl_to_hsv ROps h s l = (h, s * (1 - l) / (l + s * (1 - l)), l + s * (1 - l)).
+Lemma hsl_to_hsv_upper h s l : 1 / 2 <= l -> 0 <= s -> l + s * (1 - l) <> 0 ->
+  hsl_to_hsv ROps h s l = (h, 2 * s * (1 - l) / (l + s * (1 - l)), l + s * (1 - l)).
 Proof.
   intros Hl Hs Hd. unfold hsl_to_hsv. rsimpl. cbv zeta.
-  rb; simpl andb; cbv iota; try lra.
-  - exfalso. lra.
-  - exfalso. lra.
-  - f_equal; [f_equal|]; field; lra.
-  - f_equal; [f_equal|]; field; lra.
+  destruct (Rleb (2 * l) 1) eqn:L1; [apply Rleb_true in L1 | apply Rleb_false in L1].
+  - assert (l = 1 / 2) by lra. subst l.
+    destruct (Reqb (2 * (s * (2 * (1 / 2)))) 0 && Reqb (2 * (1 / 2) + s * (2 * (1 / 2))) 0) eqn:E.
+    + exfalso. apply andb_true_iff in E. destruct E as [_ E]. apply Reqb_true in E. lra.
+    + tup; field; lra.
+  - destruct (Reqb (2 * (s * (2 - 2 * l))) 0 && Reqb (2 * l + s * (2 - 2 * l)) 0) eqn:E.
+    + exfalso. apply andb_true_iff in E. destruct E as [_ E]. apply Reqb_true in E. lra.
+    + tup; field; lra.
 Qed.
 
 Lemma hsl_to_hsv_range h s l : in01 s -> in01 l ->
@@ -150,16 +155,20 @@ Lemma rgb_from_polar_eq az l :
   rgb_from_polar ROps az l =
   let '(h, s, v) := hsl_to_hsv ROps (Rfmod (az / (2 * PI)) 1) 1 l in hsv_to_rgb ROps h s v.
 Proof.
-  unfold rgb_from_polar, rgb_from_polar_coordinates. rsimpl. cbv zeta.
-  destruct (hsl_to_hsv ROps (Rfmod (az / (2 * PI)) 1) 1 l) as [[h s] v]. simpl fst; simpl snd.
+  unfold rgb_from_polar, rgb_from_polar_coordinates. cbv zeta.
+  set (X := hsl_to_hsv ROps _ _ _).
+  change (hsl_to_hsv ROps (Rfmod (az / (2 * PI)) 1) 1 l) with X.
+  destruct X as [[h s] v]. simpl fst; simpl snd.
   destruct (hsv_to_rgb ROps h s v) as [[r g] b]. reflexivity.
 Qed.
 
 Lemma color_of_polar_eq az p :
   color_of_polar ROps az p = rgb_from_polar ROps az (1 / 2 + p / 2).
 Proof.
-  unfold color_of_polar, direction2color_k, rgb_from_polar. rsimpl. cbv zeta.
-  destruct (rgb_from_polar_coordinates ROps (hsv_to_rgb ROps) az (1 / 2 + p / 2)) as [[r g] b]. reflexivity.
+  unfold color_of_polar, direction2color_k, rgb_from_polar. cbv zeta.
+  set (X := rgb_from_polar_coordinates ROps _ _ _).
+  change (rgb_from_polar_coordinates ROps (hsv_to_rgb ROps) az (1 / 2 + p / 2)) with X.
+  destruct X as [[r g] b]. reflexivity.
 Qed.
 
 Lemma hue_range az : 0 <= Rfmod (az / (2 * PI)) 1 < 1.
@@ -184,12 +193,111 @@ Theorem color_of_polar_closed az p : 0 <= p <= 1 ->
   color_of_polar ROps az p = hsv_to_rgb ROps (Rfmod (az / (2 * PI)) 1) (1 - p) 1.
 Proof.
   intros Hp. rewrite color_of_polar_eq, rgb_from_polar_eq.
-  rewrite hsl_to_hsv_upper.
-  - replace (1 * (1 - (1 / 2 + p / 2)) / (1 / 2 + p / 2 + 1 * (1 - (1 / 2 + p / 2)))) with (1 - p) by (field; lra).
-    replace (1 / 2 + p / 2 + 1 * (1 - (1 / 2 + p / 2))) with 1 by field. reflexivity.
-  - destruct (Req_dec p 0) as [-> | Hn]; [|lra].
-    (* p = 0: lightness exactly 1/2 is the lower branch; same value *)
-    exfalso. admit_marker.
+  rewrite hsl_to_hsv_upper by lra.
+  replace (2 * 1 * (1 - (1 / 2 + p / 2)) / (1 / 2 + p / 2 + 1 * (1 - (1 / 2 + p / 2)))) with (1 - p) by (field; lra).
+  replace (1 / 2 + p / 2 + 1 * (1 - (1 / 2 + p / 2))) with 1 by field. reflexivity.
+Qed.
+
+(* max = value, min = value * (1 - saturation), for every hue in [0,1] *)
+Theorem hsv_to_rgb_maxmin h s v : in01 h -> in01 s -> 0 <= v ->
+  let '(r, g, b) := hsv_to_rgb ROps h s v in
+  Rmax (Rmax r g) b = v /\ Rmin (Rmin r g) b = v * (1 - s).
+Proof.
+  intros Hh Hs Hv. unfold in01 in Hh.
+  unfold hsv_to_rgb. rsimpl. cbv zeta.
+  destruct (Reqb s 0) eqn:E; [apply Reqb_true in E | clear E].
+  - subst s. unfold Rmax, Rmin; repeat destruct Rle_dec; split; lra.
+  - rb; apply hsv_sextant_maxmin; auto; simpl IZR; try lra; try lia.
+Qed.
+
+(* HSL lightness of the colour of (azimuth, polar) is 1/2 + polar/2 *)
+Theorem color_of_polar_lightness az p : 0 <= p <= 1 ->
+  lightness_rgb ROps (color_of_polar ROps az p) = 1 / 2 + p / 2.
+Proof.
+  intros Hp. rewrite color_of_polar_closed by exact Hp.
+  rewrite hsv_to_rgb_lightness.
+  - field.
+  - pose proof (hue_range az). unfold in01. lra.
+  - unfold in01. lra.
   - lra.
-  - lra.
-Abort.
+Qed.
+
+(* polar = 1 (the sector centre) is white ... *)
+Theorem color_of_polar_white az : color_of_polar ROps az 1 = (1, 1, 1).
+Proof.
+  rewrite color_of_polar_closed by lra.
+  unfold hsv_to_rgb. rsimpl. cbv zeta.
+  destruct (Reqb (1 - 1) 0) eqn:E; [reflexivity|]. apply Reqb_false in E. exfalso. apply E. ring.
+Qed.
+
+(* ... and nothing else is: the centre is the unique lightest point *)
+Theorem color_white_only_at_one az p : 0 <= p <= 1 ->
+  color_of_polar ROps az p = (1, 1, 1) -> p = 1.
+Proof.
+  intros Hp H. pose proof (color_of_polar_lightness az p Hp) as L. rewrite H in L.
+  unfold lightness_rgb in L. rewrite !o_maxR, !o_minR in L. revert L. rsimpl.
+  unfold Rmax, Rmin; repeat destruct Rle_dec; lra.
+Qed.
+
+Theorem color_lighter_towards_centre az1 az2 p q : 0 <= p <= 1 -> 0 <= q <= 1 -> p < q ->
+  lightness_rgb ROps (color_of_polar ROps az1 p) < lightness_rgb ROps (color_of_polar ROps az2 q).
+Proof. intros Hp Hq Hpq. rewrite !color_of_polar_lightness by assumption. lra. Qed.
+
+(* polar = 0 (the sector boundary) is fully saturated: max 1, min 0 *)
+Theorem color_boundary_saturated az :
+  let '(r, g, b) := color_of_polar ROps az 0 in
+  Rmax (Rmax r g) b = 1 /\ Rmin (Rmin r g) b = 0.
+Proof.
+  rewrite color_of_polar_closed by lra.
+  pose proof (hsv_to_rgb_maxmin (Rfmod (az / (2 * PI)) 1) (1 - 0) 1) as M.
+  destruct (hsv_to_rgb ROps (Rfmod (az / (2 * PI)) 1) (1 - 0) 1) as [[r g] b].
+  destruct M as [M1 M2]; [pose proof (hue_range az); unfold in01; lra | unfold in01; lra | lra |].
+  split; [exact M1 | rewrite M2; ring].
+Qed.
+
+(* hue of an azimuth in [0, 2 pi) *)
+Lemma fmod_small x : 0 <= x < 1 -> Rfmod x 1 = x.
+Proof.
+  intros Hx. unfold Rfmod. replace (x / 1) with x by field.
+  destruct (base_Int_part x) as [H1 H2].
+  assert (Hk : Int_part x = 0%Z).
+  { assert (Int_part x < 1)%Z by (apply lt_IZR; simpl; lra).
+    assert (-1 < Int_part x)%Z by (apply lt_IZR; simpl; lra). lia. }
+  rewrite Hk. simpl. ring.
+Qed.
+
+Lemma hue_of_azimuth az : 0 <= az < 2 * PI -> Rfmod (az / (2 * PI)) 1 = az / (2 * PI).
+Proof.
+  intros Ha. apply fmod_small. pose proof PI_RGT_0.
+  split.
+  - apply Rmult_le_pos; [lra | left; apply Rinv_0_lt_compat; lra].
+  - apply Rmult_lt_reg_r with (2 * PI); [lra|]. unfold Rdiv. rewrite Rmult_assoc, Rinv_l by lra. lra.
+Qed.
+
+(* the three corners of a three-vertex key: azimuth 0, 2pi/3, 4pi/3 on the
+   boundary are pure red, green, blue *)
+Theorem color_corner_red : color_of_polar ROps 0 0 = (1, 0, 0).
+Proof.
+  rewrite color_of_polar_closed by lra. rewrite hue_of_azimuth by (pose proof PI_RGT_0; lra).
+  unfold hsv_to_rgb, hsv_sextant. rsimpl. cbv zeta.
+  replace (0 / (2 * PI) * 6) with 0 by (field; pose proof PI_RGT_0; lra).
+  rb; try lra. tup; ring.
+Qed.
+
+Theorem color_corner_green : color_of_polar ROps (2 * PI / 3) 0 = (0, 1, 0).
+Proof.
+  pose proof PI_RGT_0.
+  rewrite color_of_polar_closed by lra. rewrite hue_of_azimuth by lra.
+  unfold hsv_to_rgb, hsv_sextant. rsimpl. cbv zeta.
+  replace (2 * PI / 3 / (2 * PI) * 6) with 2 by (field; lra).
+  rb; try lra. tup; ring.
+Qed.
+
+Theorem color_corner_blue : color_of_polar ROps (4 * PI / 3) 0 = (0, 0, 1).
+Proof.
+  pose proof PI_RGT_0.
+  rewrite color_of_polar_closed by lra. rewrite hue_of_azimuth by lra.
+  unfold hsv_to_rgb, hsv_sextant. rsimpl. cbv zeta.
+  replace (4 * PI / 3 / (2 * PI) * 6) with 4 by (field; lra).
+  rb; try lra. tup; ring.
+Qed.
